@@ -1,26 +1,39 @@
 """C10 - idle connections time out, but never while a hook is pending.
 
-Decided (structure of the watchdog, not wall-clock behaviour):
-  R10.1 ``TimeoutWatchdog.disarm`` as a counting context manager: abstract execution for every entry count
-        b in {0,1,2}, for the normal exit *and* for an exception thrown in at the ``yield``: at the yield
-        can_timeout is cleared and blocker == b+1; at exit blocker == b; can_timeout is set again and activity is
-        registered iff b == 0 (the last pending hook).  ``__init__`` starts with blocker == 0.
-  R10.2 every ``await`` of ``ProxyConnectionHandler.handle_hook`` (hook dispatch, ``wait_for_resume``) lies inside
-        ``with self.timeout_watchdog.disarm()``; ``server_event`` registers activity before the layer runs; the
-        watchdog object is the ``TimeoutWatchdog`` built in ``ConnectionHandler.__init__`` with ``self.on_timeout``.
-  R10.3 in ``watch`` every path reaching ``await self.callback()`` evaluates, *after the last suspension point*
-        (any await) before the callback, (a) a condition that cannot have the taken value while a hook is pending
-        (blocker >= 1, ``can_timeout.is_set()`` False) and (b) a condition that cannot have the taken value unless
-        ``last_activity + timeout`` is in the past.  (F-C10 was the missing (a); repaired in /repo, the reverse
+How it is decided.  The watchdog (``TimeoutWatchdog`` in proxy/server.py) is *interpreted* from its AST (``pyint``; nothing of the
+repository is imported or run) on a small virtual-time machine: ``time.time()`` reads a virtual clock, ``asyncio.Event`` is a flag object
+owned by the rule, ``asyncio.sleep`` / ``Event.wait`` / the timeout callback are suspension points handed to a scheduler.  The rules then
+talk about *behaviour* (what the flag / the activity stamp / the callback do under a schedule), not about the shape of the code, so
+renamed locals and attributes, temporaries, extracted helpers, inverted branches, early ``continue``/``return``, added logging /
+assertions / parameters with defaults, a class-based context manager instead of a ``@contextmanager`` generator ... are all analysed
+alike.
+
+  R10.1 ``TimeoutWatchdog.disarm()`` as a counting guard, black box: a fresh watchdog (built by interpreting ``__init__`` with the
+        arguments of the call in ``ConnectionHandler.__init__``) is armed; then for every interleaving of three nested / overlapping
+        ``with disarm():`` blocks, each left normally or by an exception: the watchdog is disarmed whenever >= 1 block is open, stays
+        disarmed when a block exits while another is open, and is re-armed *and* stamps the activity time exactly when the last
+        open block exits.  Both context-manager protocols are driven: generator (``@contextmanager``; the exceptional exit is the
+        exception thrown in at the ``yield``) and ``__enter__``/``__exit__`` objects.
+  R10.2 every ``await`` of ``ProxyConnectionHandler.handle_hook`` (hook dispatch, ``wait_for_resume``; helper coroutines are inlined)
+        lies inside ``with self.timeout_watchdog.disarm()``; ``server_event`` registers activity before the layer runs and
+        ``register_activity()`` really stamps the clock; the watchdog object is the ``TimeoutWatchdog`` built in
+        ``ConnectionHandler.__init__`` with ``self.on_timeout``.
+  R10.3 ``watch()`` under an adversarial scheduler: at every suspension point the environment may let time pass (just enough / far
+        too long), start a hook, finish a hook, register activity, or start-and-finish a hook - using the *real* ``disarm`` /
+        ``register_activity`` code.  For every schedule up to the stated length: when the timeout callback is awaited, no hook is
+        pending and more than ``timeout`` seconds passed since the last activity / last hook completion (ground truth kept by
+        the scheduler).  (F-C10 was a callback fired although a hook had started during the sleep; repaired in /repo, the reverse
         of the fix is a mutant.)
-  R10.4 ``handle_client`` starts ``timeout_watchdog.watch()`` as a task on every path; ``on_timeout`` cancels the
-        handler task of the *client* connection.
-Not decided: real timing, asyncio scheduling, that addons do not block the loop.
+  R10.4 ``handle_client`` starts ``timeout_watchdog.watch()`` as a task on every path; ``on_timeout`` cancels the handler task of
+        the *client* connection on every path on which that task exists.
+Not decided: real timing, asyncio scheduling fairness, that addons do not block the loop, cancellation of the watchdog task.
 """
 
 from __future__ import annotations
 
 import ast
+import math
+import re
 
 from ..core import AnalysisError
 from ..core import norm
@@ -28,198 +41,828 @@ from ..model import attr_chain
 from ..model import call_name
 from ..model import calls_in
 from ..model import decorators
+from ..model import enclosing_func
+from ..model import eval_order
 from ..model import walk_in_order
-from ..paths import C
+from ..paths import Engine
 from ..paths import GenericSpec
+from ..paths import R
+from ..paths import State
 from ..paths import is_const
 from ..paths import precedes
-from ..paths import traces_of
+from ..pyint import ClassRef
+from ..pyint import Func
+from ..pyint import Gen
+from ..pyint import Interp
+from ..pyint import Raised
+from ..pyint import Rec
+from ..pyint import _restore
+from ..pyint import _Return
+from ..pyint import _snapshot
 from ..selftest import Mutant
-from ._helpers_B import ceval
-from ._helpers_B import NodeCondSpec
-from ._helpers_B import NotAnAtom
+from ._helpers_B import mentions
 from ._helpers_B import unconditional_in_stmt
-from ._helpers_B import with_throw_at_yield
 
 PROP = "C10"
 REG = {
     "strength": "partial",
-    "technique": "abstract execution of the disarm context manager over entry counts (normal + thrown exit); "
-    "path enumeration of watch with semantic evaluation of the conditions between the last suspension point and the callback",
-    "claim": "disarm() is a correct counting guard (cleared while >=1 hook pending, re-armed and activity registered exactly when "
-    "the last hook completes, also on exceptions); every await of the production handle_hook lies inside disarm(); watch() fires "
-    "the callback only after re-checking, with no suspension in between, that no hook is pending and the idle time has elapsed.",
-    "note": "Timing itself (asyncio.sleep, time.time) is library behaviour. Event.wait() is treated as a suspension point after "
-    "which the armed state must be re-read.",
+    "technique": "AST interpretation of TimeoutWatchdog on a virtual-time machine: black-box protocol test of disarm() over all "
+    "interleavings of three nested/overlapping blocks (normal + exceptional exit); bounded model checking of watch() against an "
+    "adversarial scheduler (time, hooks, activity) with ground-truth monitors; path enumeration for the call sites",
+    "claim": "disarm() is a correct counting guard (disarmed while >=1 hook pending, re-armed and activity registered exactly when "
+    "the last hook completes, also on exceptions); every await of the production handle_hook lies inside disarm(); watch() awaits "
+    "the timeout callback only when no hook is pending and the idle time has elapsed, under every explored schedule.",
+    "note": "Timing itself (asyncio.sleep, time.time) is library behaviour. Event.wait() returns at once when the event is set and "
+    "otherwise resumes after a scheduler step in which set() was called (the flag may have been cleared again by then). Schedules are "
+    "bounded (3 scheduler steps quick / 4 thorough, <= 3 concurrent hooks).",
 }
 F = "mitmproxy/proxy/server.py"
 MS = "mitmproxy/proxy/mode_servers.py"
 CP = "mitmproxy/addons/clientplayback.py"
 
-CLEAR, SET = "self.can_timeout.clear", "self.can_timeout.set"
+WD = "self.timeout_watchdog"
+T0 = 1000.0
+TIMEOUT = 10
+
+# ---- single-assignment temporaries -----------------------------------------------------------------
 
 
-class DisarmSpec(GenericSpec):
-    """Events: calls on can_timeout, ('yield',''), ('blocker', n) after every write, ('activity',)."""
+def _single_defs(fn):
+    """name -> value node, for locals of ``fn`` bound exactly once by a plain ``name = value`` (not parameters, loop / with / except /
+    match targets, augmented or unpacking assignments)."""
+    cached = getattr(fn, "_c10_defs", None)
+    if cached is not None:
+        return cached
+    a = fn.args
+    params = {p.arg for p in a.posonlyargs + a.args + a.kwonlyargs} | {p.arg for p in (a.vararg, a.kwarg) if p is not None}
+    count: dict = {}
+    val: dict = {}
 
-    def __init__(self, resolver, allow_rebind=False):
-        self.allow_rebind = allow_rebind
-        super().__init__(
-            keep=lambda ev: (ev[0] == "call" and ev[1] in (CLEAR, SET)) or ev[0] == "yield",
-            resolver=resolver,
-            tracked=("self.blocker",),
-        )
+    def bind(t, v):
+        if isinstance(t, ast.Name):
+            count[t.id] = count.get(t.id, 0) + 1
+            val[t.id] = v
+        elif isinstance(t, (ast.Tuple, ast.List)):
+            for e in t.elts:
+                bind(e.value if isinstance(e, ast.Starred) else e, None)
+
+    for n in walk_in_order(fn):
+        if isinstance(n, ast.Assign):
+            for t in n.targets:
+                bind(t, n.value if len(n.targets) == 1 else None)
+        elif isinstance(n, ast.AnnAssign) and n.value is not None:
+            bind(n.target, n.value)
+        elif isinstance(n, ast.NamedExpr):
+            bind(n.target, n.value)
+        elif isinstance(n, ast.AugAssign):
+            bind(n.target, None)
+            bind(n.target, None)
+        elif isinstance(n, (ast.For, ast.AsyncFor, ast.comprehension)):
+            bind(n.target, None)
+            bind(n.target, None)
+        elif isinstance(n, (ast.With, ast.AsyncWith)):
+            for i in n.items:
+                if i.optional_vars is not None:
+                    bind(i.optional_vars, None)
+        elif isinstance(n, ast.ExceptHandler) and n.name:
+            count[n.name] = count.get(n.name, 0) + 2
+        elif isinstance(n, (ast.MatchAs, ast.MatchStar)) and n.name:
+            count[n.name] = count.get(n.name, 0) + 2
+    out = {k: v for k, v in val.items() if count.get(k) == 1 and v is not None and k not in params}
+    fn._c10_defs = out
+    return out
+
+
+def _expand(expr, fn=None, _depth=0):
+    """Copy of ``expr`` in which single-assignment temporaries of the enclosing function are replaced by their definitions."""
+    fn = fn or enclosing_func(expr)
+    if fn is None or _depth > 6:
+        return expr
+    defs = _single_defs(fn)
+
+    def clone(n):
+        if isinstance(n, ast.Name) and isinstance(n.ctx, ast.Load) and n.id in defs:
+            return _expand(defs[n.id], fn, _depth + 1)
+        if isinstance(n, ast.AST):
+            new = type(n)()
+            for f, v in ast.iter_fields(n):
+                setattr(new, f, clone(v))
+            for a in ("lineno", "col_offset", "end_lineno", "end_col_offset"):
+                if hasattr(n, a):
+                    setattr(new, a, getattr(n, a))
+            return new
+        if isinstance(n, list):
+            return [clone(x) for x in n]
+        return n
+
+    return clone(expr)
+
+
+def _xtext(expr) -> str:
+    return norm(_expand(expr))
+
+
+def _xname(call) -> str:
+    """callee text with temporaries expanded: ``wd = self.timeout_watchdog; wd.disarm()`` -> 'self.timeout_watchdog.disarm'"""
+    return _xtext(call.func)
+
+
+# ---- path engine with alias-expanded events ----------------------------------------------------------
+
+
+class _DEngine(Engine):
+    """Engine that tells the spec the inlining depth of the statement being labelled (needed to look up local values in events)."""
+
+    def stmt(self, node, states, depth):
+        self.spec.cur_depth = depth
+        return super().stmt(node, states, depth)
+
+    def cond(self, expr, states, depth):
+        self.spec.cur_depth = depth
+        return super().cond(expr, states, depth)
+
+    def call(self, fn, call, states, depth):
+        try:
+            return super().call(fn, call, states, depth)
+        finally:
+            self.spec.cur_depth = depth
+
+
+class _XSpec(GenericSpec):
+    """Events (callee / context texts have single-assignment temporaries expanded):
+    ('call', f) ('await', f) ('dispatch',) after an await whose call receives the tracked value ``mark``;
+    ('enter', ctx) / ('exit', ctx) per with-item; ('except', Cls); ('cond', text, taken, expanded node)."""
+
+    def __init__(self, keep=None, resolver=None, unroll=1, implicit_raises=False, mark=None):
+        super().__init__(keep=keep, resolver=resolver, record_conds=True, unroll=unroll)
+        self.cur_depth = 0
+        self.implicit_raises = implicit_raises
+        self.mark = mark
+
+    def _k(self, ev):
+        return self._keep is None or self._keep(ev)
 
     def events(self, node, st):
-        out = list(super().events(node, st))
-        if isinstance(node, (ast.Assign, ast.AugAssign, ast.AnnAssign)):
-            targets = node.targets if isinstance(node, ast.Assign) else [node.target]
-            for t in targets:
-                ch = attr_chain(t)
-                if ch == "self.blocker":
-                    st2 = self.effect(node, st, 0)
-                    v = st2.get("self.blocker")
-                    if not is_const(v):
-                        raise AnalysisError(f"TimeoutWatchdog: write to self.blocker not modelled: {norm(node)}")
-                    out.append(("blocker", v[1]))
-                elif ch == "self.last_activity":
-                    ok = isinstance(node, ast.Assign) and isinstance(node.value, ast.Call) and call_name(node.value) == "time.time"
-                    if not ok:
-                        raise AnalysisError(f"TimeoutWatchdog: write to self.last_activity not modelled: {norm(node)}")
-                    out.append(("activity",))
-                elif ch == "self.can_timeout" and not self.allow_rebind:
-                    raise AnalysisError(f"TimeoutWatchdog: can_timeout is rebound: {norm(node)}")
-        return out
-
-    def effect(self, stmt, st, depth):
-        if isinstance(stmt, ast.AugAssign) and attr_chain(stmt.target) == "self.blocker":
-            cur = st.get("self.blocker")
-            if is_const(cur) and isinstance(stmt.value, ast.Constant) and isinstance(stmt.value.value, int) and isinstance(stmt.op, (ast.Add, ast.Sub)):
-                d = stmt.value.value if isinstance(stmt.op, ast.Add) else -stmt.value.value
-                return st.set("self.blocker", C(cur[1] + d))
-            raise AnalysisError(f"TimeoutWatchdog: update of self.blocker not modelled: {norm(stmt)}")
-        return super().effect(stmt, st, depth)
-
-
-def _fold(trace, b):
-    """(armed, blocker, activity-after-yield, seen_yield) after running the events from entry count b (armed=None: untouched)."""
-    armed, blocker, activity, yielded, at_yield = None, b, False, 0, None
-    for ev in trace:
-        if ev[0] == "call" and ev[1] == CLEAR:
-            armed = False
-        elif ev[0] == "call" and ev[1] == SET:
-            armed = True
-        elif ev[0] == "blocker":
-            blocker = ev[1]
-        elif ev[0] == "activity":
-            if yielded:
-                activity = True
-        elif ev[0] == "yield":
-            yielded += 1
-            at_yield = (armed, blocker)
-    return armed, blocker, activity, yielded, at_yield
-
-
-def _r10_1(ctx):
-    m = ctx.model
-    dis = ctx.func(F, "TimeoutWatchdog.disarm")
-    reg = ctx.func(F, "TimeoutWatchdog.register_activity")
-    init = ctx.func(F, "TimeoutWatchdog.__init__")
-    ctx.require(any(d.split(".")[-1] == "contextmanager" for d in decorators(dis)), "TimeoutWatchdog.disarm is no longer a @contextmanager")
-
-    def resolver(call):
-        return reg if call_name(call) == "self.register_activity" else None
-
-    thrown, n_yields = with_throw_at_yield(dis)
-    ctx.require(n_yields == 1, f"TimeoutWatchdog.disarm has {n_yields} yield statements (exactly one modelled)")
-    where = (F, "TimeoutWatchdog.disarm", dis)
-    for b in (0, 1, 2):
-        for mode, fn in (("normal", dis), ("thrown", thrown)):
-            spec = DisarmSpec(resolver)
-            res, eng = traces_of(fn, spec, init_env={"self.blocker": C(b)})
-            ctx.require(eng.forks == 0, f"disarm: a branch could not be decided from the counter (entry count {b}, {mode} exit)")
-            ctx.require(res, "disarm: no terminal path")
-            for trace, how, st in res:
-                ctx.paths += 1
-                if mode == "thrown" and not how.startswith("raise:"):
-                    # the exception thrown in at the yield is swallowed: contextmanager then suppresses it - not modelled
-                    raise AnalysisError("disarm swallows the exception thrown in at the yield (shape not modelled)")
-                armed, blocker, activity, yielded, at_yield = _fold(trace, b)
-                ctx.require(yielded == 1, f"disarm: path with {yielded} yields")
-                tag = f"entry count {b}, {mode} exit"
-                ctx.check(at_yield == (False, b + 1), "R10.1", where, f"state at yield ({tag})",
-                          f"inside the with-body (armed, blocker) = {at_yield}, expected (False, {b + 1}): the watchdog is not disarmed/counted while the hook runs",
-                          desc=f"at yield: cleared and blocker={b + 1} ({tag})")
-                ctx.check(blocker == b, "R10.1", where, f"blocker at exit ({tag})",
-                          f"blocker is {blocker} after the hook completed, expected {b}: the count of pending hooks drifts",
-                          desc=f"at exit: blocker={b} ({tag})")
-                if b == 0:
-                    ctx.check(armed is True and activity, "R10.1", where, f"re-arm at exit ({tag})",
-                              f"last pending hook completed but armed={armed}, activity registered={activity}: the idle period does not restart / the connection can never time out",
-                              desc=f"at exit: re-armed and activity registered ({tag})")
+        out = []
+        for n in eval_order(node):
+            if isinstance(n, ast.Call):
+                out.append(("call", _xname(n)))
+            elif isinstance(n, ast.Await):
+                if isinstance(n.value, ast.Call):
+                    out.append(("await", _xname(n.value)))
+                    if self.mark is not None:
+                        args = list(n.value.args) + [k.value for k in n.value.keywords]
+                        if any(self.value(a, st, self.cur_depth) == self.mark for a in args):
+                            out.append(("dispatch",))
                 else:
-                    ctx.check(armed is False, "R10.1", where, f"stay disarmed at exit ({tag})",
-                              f"{b} hook(s) still pending but can_timeout armed={armed}: the connection may be closed while a hook is pending",
-                              desc=f"at exit: still disarmed ({tag})")
-    # initial count
-    spec = DisarmSpec(None, allow_rebind=True)
-    res, eng = traces_of(init, spec)
-    vals = {st.get("self.blocker") for _, _, st in res}
-    ctx.check(vals == {C(0)}, "R10.1", (F, "TimeoutWatchdog.__init__", init), "self.blocker initial value",
-              f"the pending-hook counter does not start at 0 on all paths: {sorted(map(str, vals))}", desc="__init__: blocker = 0")
+                    out.append(("await", _xtext(n.value)))
+        return [e for e in out if self._k(e)]
 
+    def cond_event(self, expr, value, st):
+        ev = ("cond", norm(expr), value, expr)
+        return ev if self._k(ev) else None
 
-class WithSpec(GenericSpec):
     def with_enter(self, node, s):
-        return tuple(("enter", call_name(i.context_expr) if isinstance(i.context_expr, ast.Call) else norm(i.context_expr)) for i in node.items)
+        return tuple(e for e in (("enter", _xtext(i.context_expr)) for i in node.items) if self._k(e))
 
     def with_exit(self, node):
-        return tuple(("exit", call_name(i.context_expr) if isinstance(i.context_expr, ast.Call) else norm(i.context_expr)) for i in reversed(node.items))
+        return tuple(e for e in (("exit", _xtext(i.context_expr)) for i in reversed(node.items)) if self._k(e))
+
+    def handler_event(self, h, ename, s):
+        ev = ("except", ename)
+        return ev if self._k(ev) else None
+
+    def raises_into(self, stmt, handler_names, st):
+        return list(dict.fromkeys(handler_names)) if self.implicit_raises else []
 
 
-DISARM = "self.timeout_watchdog.disarm"
+def _traces(fn, spec, bindings=None):
+    eng = _DEngine(spec)
+    spec.cur_depth = 0
+    o = eng.run(fn, State((), {}), bindings)
+    out = [(s.trace, "return", s) for s in o.ret]
+    for s in o.exc:
+        e = s.get("$exc")
+        out.append((s.trace, "raise:" + (e[1] if is_const(e) else "?"), s))
+    return out, eng
 
 
-def _r10_2(ctx):
+def _module_of(model, node):
+    """the parsed module a node belongs to (via its parents), or None for synthesised nodes"""
+    n = node
+    while getattr(n, "_parent", None) is not None:
+        n = n._parent
+    for mod in list(model._mods.values()):
+        if mod.tree is n:
+            return mod
+    return None
+
+
+def _helper_resolver(model, rel, cls_qual, relevant):
+    """resolver for the path engine: ``self.h()`` / ``cls.h()`` / ``Class.h()`` / ``type(self).h()`` (along the MRO of ``cls_qual``) and
+    module-level ``h()`` of ``rel`` - but only helpers that (transitively) contain something of the rule's alphabet (``relevant``)."""
+    mod = model.module(rel)
+    cls_name = cls_qual.split(".")[-1]
+    memo: dict = {}
+    reached: list = []
+
+    def target(call):
+        f = call.func
+        if isinstance(f, ast.Attribute):
+            v = f.value
+            on_self = isinstance(v, ast.Name) and v.id in ("self", "cls", cls_name)
+            on_type = (isinstance(v, ast.Call) and norm(v) == "type(self)") or norm(v) == "self.__class__"
+            if on_self or on_type:
+                r = model.method(rel, cls_qual, f.attr)
+                return r[1] if r else None
+            return None
+        if isinstance(f, ast.Name):
+            home = _module_of(model, call) or mod
+            d = home.get(f.id)
+            if isinstance(d, (ast.FunctionDef, ast.AsyncFunctionDef)):
+                return d
+            r = model.resolve_name(home, f)
+            if r and isinstance(r[1], (ast.FunctionDef, ast.AsyncFunctionDef)):
+                return r[1]
+        return None
+
+    def is_rel(fn, depth=0):
+        key = id(fn)
+        if key in memo:
+            return memo[key]
+        memo[key] = False
+        ok = relevant(fn)
+        if not ok and depth < 3:
+            for c in calls_in(fn):
+                t = target(c)
+                if t is not None and t is not fn and is_rel(t, depth + 1):
+                    ok = True
+                    break
+        memo[key] = ok
+        return ok
+
+    def resolver(call):
+        t = target(call)
+        if t is None or any(norm(d) in ("property", "abc.abstractmethod", "abstractmethod") for d in t.decorator_list):
+            return None
+        if not is_rel(t):
+            return None
+        if t not in reached:
+            reached.append(t)
+        return t
+
+    resolver.reached = reached
+    return resolver
+
+
+# ---- the virtual-time machine --------------------------------------------------------------------------
+
+
+class _Suspend(Exception):
+    """a driven generator context manager reached its yield"""
+
+
+class _EndRun(Exception):
+    pass
+
+
+class _NeedMore(Exception):
+    """the schedule prefix is exhausted"""
+
+
+class _Invalid(Exception):
+    """the schedule asks for something impossible (finish a hook when none is open)"""
+
+
+class _Aw:
+    """awaitable token of the trusted asyncio stand-in"""
+
+    def __init__(self, kind, arg=None):
+        self.kind, self.arg = kind, arg
+
+
+class _World:
+    def __init__(self):
+        self.now = T0
+        self.events: list = []
+
+
+class _Event:
+    def __init__(self, world):
+        self._v = False
+        self.fired = False
+        world.events.append(self)
+
+    def set(self):
+        self._v = True
+        self.fired = True
+
+    def clear(self):
+        self._v = False
+
+    def is_set(self):
+        return self._v
+
+    def wait(self):
+        return _Aw("wait", self)
+
+
+MONO_ORIGIN = 900.0  # the monotonic clock has another origin than the wall clock: mixing the two in one comparison shows
+
+
+class _TimeMod:
+    def __init__(self, world):
+        self._w = world
+
+    def time(self):
+        return self._w.now
+
+    def monotonic(self):
+        return self._w.now - MONO_ORIGIN
+
+
+class _LoopObj:
+    def __init__(self, world):
+        self._w = world
+
+    def time(self):
+        return self._w.now - MONO_ORIGIN
+
+
+class _AsyncioMod:
+    CancelledError = "asyncio.CancelledError"
+
+    def __init__(self, world):
+        self._w = world
+
+    def Event(self):
+        return _Event(self._w)
+
+    def get_running_loop(self):
+        return _LoopObj(self._w)
+
+    get_event_loop = get_running_loop
+
+    def sleep(self, delay=0, result=None):
+        if isinstance(delay, bool) or not isinstance(delay, (int, float)):
+            raise AnalysisError(f"asyncio.sleep() with a non-numeric delay in the virtual-time model: {delay!r}")
+        return _Aw("sleep", delay)
+
+
+class _Sink:
+    """logger stand-in: every method accepts anything and does nothing"""
+
+    def _noop(self, *a, **k):
+        return None
+
+    def __getattr__(self, name):
+        if name.startswith("__"):
+            raise AttributeError(name)
+        return self._noop
+
+
+class _LoggingMod:
+    DEBUG, INFO, WARNING, WARN, ERROR, CRITICAL = 10, 20, 30, 30, 40, 50
+
+    def __init__(self):
+        self._sink = _Sink()
+
+    def getLogger(self, *a):
+        return self._sink
+
+    def __getattr__(self, name):
+        if name in ("debug", "info", "warning", "error", "exception", "critical", "log"):
+            return self._sink._noop
+        raise AttributeError(name)
+
+
+class _LazyText:
+    """call text for error messages, rendered only when a message is built"""
+
+    def __init__(self, node):
+        self.node = node
+
+    def __str__(self):
+        return norm(self.node)[:80] if self.node is not None else "?"
+
+
+class _VInterp(Interp):
+    """pyint + coroutines on a scheduler: ``await <call>`` of a repository coroutine runs its body in place, of a trusted awaitable
+    hands a suspension to ``self.scheduler``; ``yield`` inside a driven generator context manager calls ``self.yield_hook``."""
+
+    def __init__(self, model, world):
+        super().__init__(model, trusted_modules={"time": _TimeMod(world), "asyncio": _AsyncioMod(world), "logging": _LoggingMod(), "math": math}, max_steps=200000)
+        self.world = world
+        self.scheduler = None
+        self.yield_hook = None
+        self._await_call = None
+
+    @staticmethod
+    def _owner(n, fn):
+        if isinstance(n, ast.Await):
+            return False  # coroutines are interpreted here (pyint alone refuses them)
+        return Interp._owner(n, fn)
+
+    def native_call(self, f, args, kwargs, where):
+        if isinstance(getattr(f, "__self__", None), _Sink):
+            return None
+        return super().native_call(f, args, kwargs, where)
+
+    def apply(self, f, args, kwargs, depth, node=None):
+        if isinstance(f, Func):
+            if isinstance(f.node, ast.AsyncFunctionDef) and (node is None or node is not self._await_call):
+                raise AnalysisError(f"virtual-time model: coroutine {f.node.name}() is created without being awaited directly (not modelled)")
+            # as Interp.apply, without rendering the call text on every call (the schedules run this many thousand times)
+            self.calls += 1
+            if depth + 1 > self.max_depth:
+                raise AnalysisError(f"pyint: call depth {self.max_depth} exceeded at {norm(node) if node is not None else '?'}")
+            return self.call_func(f, args, kwargs, depth + 1)
+        if not isinstance(f, (ClassRef, Rec)) and callable(f):
+            self.calls += 1
+            return self.native_call(f, args, kwargs, _LazyText(node))
+        return super().apply(f, args, kwargs, depth, node)
+
+    def ev_call(self, e, env, mod, depth):
+        if self.externals:
+            return super().ev_call(e, env, mod, depth)
+        # as Interp.ev_call for the plain case (repository function / method / trusted native, no ** unpacking)
+        f = self.ev(e.func, env, mod, depth)
+        if isinstance(f, tuple) or any(k.arg is None for k in e.keywords):
+            return self._ev_call_slow(e, f, env, mod, depth)
+        args = self.elts(e.args, env, mod, depth)
+        kwargs = {k.arg: self.ev(k.value, env, mod, depth) for k in e.keywords}
+        return self.apply(f, args, kwargs, depth, e)
+
+    def _ev_call_slow(self, e, f, env, mod, depth):
+        # builtins / typing / exception constructors / **kwargs: let pyint do it; the callee expression is a name or attribute (no effects)
+        return super().ev_call(e, env, mod, depth)
+
+    def ev(self, e, env, mod, depth):
+        if isinstance(e, ast.Await):
+            if not isinstance(e.value, ast.Call):
+                raise AnalysisError(f"virtual-time model: await of a non-call (not modelled): {norm(e)}")
+            prev, self._await_call = self._await_call, e.value
+            try:
+                v = super().ev(e.value, env, mod, depth)
+            finally:
+                self._await_call = prev
+            if isinstance(v, _Aw):
+                if self.scheduler is None:
+                    raise AnalysisError(f"virtual-time model: suspension outside a scheduled coroutine: {norm(e)}")
+                return self.scheduler(v)
+            return v
+        return super().ev(e, env, mod, depth)
+
+    def do_yield(self, value):
+        if self.yield_hook is None:
+            raise AnalysisError("virtual-time model: yield outside a driven context manager")
+        return self.yield_hook(value)
+
+
+class _VM:
+    """one world: clock, events, interpreter and a watchdog constructed the way ConnectionHandler.__init__ constructs it"""
+
+    def __init__(self, model, ctor_call):
+        self.model = model
+        self.world = _World()
+        self.interp = _VInterp(model, self.world)
+        self.callback = lambda: _Aw("callback")
+        self.wd = self._construct(ctor_call)
+        self._n_events = len(self.world.events)
+        self._initial = self.snapshot()
+
+    def reset(self):
+        """back to the freshly constructed watchdog at time T0 (runs are independent; construction is interpreted once)"""
+        del self.world.events[self._n_events :]
+        self.restore(self._initial)
+        self.interp.scheduler = self.interp.yield_hook = self.interp._await_call = None
+        return self
+
+    def _construct(self, call):
+        if any(isinstance(a, ast.Starred) for a in call.args) or any(k.arg is None for k in call.keywords):
+            raise AnalysisError(f"TimeoutWatchdog is constructed with * / ** arguments (not modelled): {norm(call)}")
+        free = []
+
+        def val(a):
+            x = _expand(a)
+            if attr_chain(x) == "self.on_timeout":
+                return self.callback
+            if isinstance(x, ast.Constant):
+                return x.value
+            free.append(a)
+            return TIMEOUT
+
+        args = [val(a) for a in call.args]
+        kwargs = {k.arg: val(k.value) for k in call.keywords}
+        if len(free) > 1:
+            raise AnalysisError(f"TimeoutWatchdog is constructed from more than one computed argument besides the callback (not modelled): {norm(call)}")
+        cref = ClassRef(self.model.module(F), self.model.cls(F, "TimeoutWatchdog"))
+        try:
+            wd = self.interp.instantiate(cref, args, kwargs, 0, "TimeoutWatchdog(...)")
+        except Raised as r:
+            raise AnalysisError(f"TimeoutWatchdog.__init__ raises {r.name} for the arguments of {norm(call)}: {r.msg}")
+        if not isinstance(wd, Rec):
+            raise AnalysisError("TimeoutWatchdog(...) did not produce an object in the virtual-time model")
+        return wd
+
+    # -- state
+    def snapshot(self):
+        return (_snapshot([self.wd]), [(e, e._v, e.fired) for e in self.world.events], self.world.now)
+
+    def restore(self, snap):
+        recs, events, now = snap
+        _restore(recs)
+        for e, v, fired in events:
+            e._v, e.fired = v, fired
+        self.world.now = now
+
+    def armed(self):
+        evs = self.world.events
+        if len(evs) != 1:
+            raise AnalysisError(f"TimeoutWatchdog holds {len(evs)} asyncio.Event objects (exactly one - the 'may time out' flag - is modelled)")
+        return evs[0]._v
+
+    # -- calls into repository code
+    def call(self, rec, name, *args):
+        it = self.interp
+        f = it.getattr(rec, name, None, 0)
+        if not isinstance(f, Func):
+            raise AnalysisError(f"{rec!r}.{name} is not a repository method")
+        it.steps = 0
+        return it.call_func(f, list(args), {}, 1)
+
+    def run_gen(self, g, hook):
+        it = self.interp
+        prev, it.yield_hook = it.yield_hook, hook
+        try:
+            try:
+                it.block(g.node.body, dict(g.env), g.f.mod, g.depth)
+            except _Return:
+                pass
+        finally:
+            it.yield_hook = prev
+
+
+class _HookCtx:
+    """one ``with self.timeout_watchdog.disarm():`` block in progress (either context-manager protocol)"""
+
+    def __init__(self, vm):
+        self.vm = vm
+        self.kind = None
+
+    def enter(self):
+        vm = self.vm
+        self.s0 = vm.snapshot()
+        cm = vm.call(vm.wd, "disarm")
+        if isinstance(cm, Gen):
+            if not any(d.split(".")[-1] == "contextmanager" for d in decorators(cm.node)):
+                raise AnalysisError(f"disarm() returns a plain generator ({cm.node.name} is not a @contextmanager): not a context manager")
+            self.kind, self.gen = "gen", cm
+            box = {}
+
+            def hook(value):
+                box["snap"] = vm.snapshot()
+                raise _Suspend()
+
+            try:
+                vm.run_gen(cm, hook)
+            except _Suspend:
+                vm.restore(box["snap"])  # undo what the unwinding ran (finally blocks belong to the exit half)
+            else:
+                raise AnalysisError("disarm(): the generator finishes without yielding (contextlib would raise RuntimeError)")
+        elif isinstance(cm, Rec) and cm._impl is not None and vm.model.method(*cm._impl, "__enter__") and vm.model.method(*cm._impl, "__exit__"):
+            self.kind, self.cm = "obj", cm
+            vm.call(cm, "__enter__")
+        else:
+            raise AnalysisError(f"disarm() returns {cm!r}: neither a @contextmanager generator nor an object with __enter__/__exit__ (not modelled)")
+
+    def exit(self, thrown=False):
+        vm = self.vm
+        if self.kind == "obj":
+            args = [("$exc", "BaseException"), "<exc:BaseException>", None] if thrown else [None, None, None]
+            vm.call(self.cm, "__exit__", *args)
+            return
+        # generator: re-run the enter half from the state it saw (recomputes the frame's locals), then continue from the yield in
+        # the *current* world - exactly a resumed generator, for code that is deterministic in (state, clock)
+        s1 = vm.snapshot()
+        vm.restore(self.s0)
+        n = [0]
+
+        def hook(value):
+            n[0] += 1
+            if n[0] > 1:
+                raise AnalysisError("disarm(): the generator yields a second time (contextlib would raise RuntimeError)")
+            vm.restore(s1)
+            if thrown:
+                raise Raised("BaseException", "thrown in at the yield")
+            return None
+
+        try:
+            vm.run_gen(self.gen, hook)
+        except Raised as r:
+            if n[0] == 0:
+                vm.restore(s1)
+            if not (thrown and r.name == "BaseException"):
+                raise
+        if n[0] == 0:
+            vm.restore(s1)
+            raise AnalysisError("disarm(): the generator did not reach its yield again on replay (not deterministic in the watchdog state)")
+
+
+def _ctor_call(ctx):
+    """the ``TimeoutWatchdog(...)`` call whose result ConnectionHandler.__init__ stores in self.timeout_watchdog"""
+    ci = ctx.func(F, "ConnectionHandler.__init__")
+    wd = [s for s in walk_in_order(ci) if isinstance(s, (ast.Assign, ast.AnnAssign)) and s.value is not None
+          and any(attr_chain(t) == WD for t in (s.targets if isinstance(s, ast.Assign) else [s.target]))]
+    ctx.require(len(wd) == 1, f"ConnectionHandler.__init__ assigns self.timeout_watchdog {len(wd)} times (exactly one modelled)")
+    call = _expand(wd[0].value, ci)
+    ctx.require(isinstance(call, ast.Call), "ConnectionHandler.__init__ no longer builds self.timeout_watchdog from a constructor call")
+    return wd[0], call
+
+
+# ---- R10.1 ---------------------------------------------------------------------------------------------
+
+
+def _sequences(n):
+    """all complete interleavings of n with-blocks: ('E',) opens the next block, ('X', j, thrown) leaves block j"""
+    out = []
+
+    def rec(seq, opened, open_ids):
+        if opened == n and not open_ids:
+            out.append(seq)
+            return
+        if opened < n:
+            rec(seq + (("E",),), opened + 1, open_ids + (opened,))
+        for j in open_ids:
+            rest = tuple(x for x in open_ids if x != j)
+            for thrown in (False, True):
+                rec(seq + (("X", j, thrown),), opened, rest)
+
+    rec((), 0, ())
+    return out
+
+
+def _seq_text(seq, upto):
+    parts = []
+    for op in seq[: upto + 1]:
+        parts.append("enter" if op[0] == "E" else f"exit#{op[1] + 1}" + ("(exception)" if op[2] else ""))
+    return " ; ".join(parts)
+
+
+def _is_now(vm, v) -> bool:
+    """v is the current reading of the wall clock or of the monotonic / loop clock"""
+    return isinstance(v, (int, float)) and not isinstance(v, bool) and v in (vm.world.now, vm.world.now - MONO_ORIGIN)
+
+
+def _stamp_attrs(ctx, ctor):
+    """attributes of a watchdog that register_activity() sets to the current time (discovered by running it at a fresh instant)"""
+    vm = _VM(ctx.model, ctor)
+    vm.world.now += 7.0
+    before = dict(vm.wd.__dict__)
+    try:
+        vm.call(vm.wd, "register_activity")
+    except Raised as r:
+        raise AnalysisError(f"register_activity() raises {r.name} on a fresh watchdog")
+    internal = ("_cls", "_bases", "_impl", "_name", "_items")  # pyint.Rec bookkeeping
+    return sorted(k for k, v in vm.wd.__dict__.items() if k not in internal and (k not in before or before[k] != v) and _is_now(vm, v))
+
+
+def _r10_1(ctx, ctor, stamps):
+    dis = ctx.func(F, "TimeoutWatchdog.disarm")
+    ctx.func(F, "TimeoutWatchdog.__init__")
+    where = (F, "TimeoutWatchdog.disarm", dis)
+    n_hooks = 3
+    bad: dict = {}
+    seen: set = set()
+    trouble = []
+
+    def note(key, ok, seq, i, what):
+        seen.add(key)
+        if not ok and key not in bad:
+            bad[key] = f"after `{_seq_text(seq, i)}`: {what}"
+
+    vm = _VM(ctx.model, ctor)
+    fresh = vm.armed()
+    ctx.check(fresh is True, "R10.1", (F, "TimeoutWatchdog.__init__", ctx.func(F, "TimeoutWatchdog.__init__")), "a fresh watchdog is armed",
+              "after __init__ the 'may time out' event is not set although no hook is pending: the connection can never time out",
+              desc="__init__: armed, no hook pending")
+    for seq in _sequences(n_hooks):
+        ctx.paths += 1
+        vm.reset()
+        blocks: dict = {}
+        opened = 0
+        for i, op in enumerate(seq):
+            vm.world.now += 1.0
+            try:
+                if op[0] == "E":
+                    blocks[opened] = h = _HookCtx(vm)
+                    opened += 1
+                    h.enter()
+                else:
+                    blocks.pop(op[1]).exit(op[2])
+            except Raised as r:
+                trouble.append(f"disarm() raises {r.name} after `{_seq_text(seq, i)}`")
+            k = len(blocks)
+            armed = vm.armed()
+            if op[0] == "E":
+                note(("open", k), armed is False, seq, i, f"{k} block(s) open but the watchdog is armed")
+            elif k > 0:
+                note(("still", k, op[2]), armed is False, seq, i, f"{k} block(s) still open but the watchdog is armed")
+            else:
+                note(("rearm", op[2]), armed is True, seq, i, "no block open but the watchdog stays disarmed")
+                stamped = bool(stamps) and all(_is_now(vm, vm.wd.__dict__.get(a)) for a in stamps)
+                note(("stamp", op[2]), stamped, seq, i, f"the activity time ({', '.join(stamps) or '?'}) was not set to the time the last block was left")
+
+    def mode(t):
+        return "exceptional exit" if t else "normal exit"
+
+    for k in range(1, n_hooks + 1):
+        key = ("open", k)
+        ctx.require(key in seen, f"R10.1: situation {key} not reached")
+        ctx.check(key not in bad, "R10.1", where, f"disarmed while {k} hook(s) are pending",
+                  f"{bad.get(key)}: the connection may be closed for inactivity while a hook is pending", desc=f"disarmed with {k} block(s) open")
+    for t in (False, True):
+        for k in range(1, n_hooks):
+            key = ("still", k, t)
+            ctx.require(key in seen, f"R10.1: situation {key} not reached")
+            ctx.check(key not in bad, "R10.1", where, f"still disarmed when a hook completes while {k} other(s) are pending ({mode(t)})",
+                      f"{bad.get(key)}: the connection may be closed for inactivity while a hook is pending", desc=f"still disarmed, {k} open after an exit ({mode(t)})")
+        ctx.require(("rearm", t) in seen, "R10.1: last-exit situation not reached")
+        ctx.check(("rearm", t) not in bad, "R10.1", where, f"re-armed when the last pending hook completes ({mode(t)})",
+                  f"{bad.get(('rearm', t))}: the connection can never time out again", desc=f"re-armed at the last exit ({mode(t)})")
+        ctx.check(("stamp", t) not in bad, "R10.1", where, f"activity registered when the last pending hook completes ({mode(t)})",
+                  f"{bad.get(('stamp', t))}: the idle period does not restart when the last hook completes", desc=f"activity stamped at the last exit ({mode(t)})")
+    if trouble and not any(f.rule == "R10.1" for f in ctx.findings):
+        raise AnalysisError(trouble[0])
+    ctx.bounds.append(f"R10.1: all interleavings of {n_hooks} with-blocks, each left normally or by an exception")
+
+
+# ---- R10.2 ---------------------------------------------------------------------------------------------
+
+DISARM_CTX = WD + ".disarm()"
+
+
+def _disarm_uses_ok(ctx, fns):
+    """every ``....disarm()`` in the analysed functions is a with-item on self.timeout_watchdog (else the region rule cannot see it)"""
+    for fn in fns:
+        with_items = {id(i.context_expr) for w in walk_in_order(fn) if isinstance(w, (ast.With, ast.AsyncWith)) for i in w.items}
+        item_names = {i.context_expr.id for w in walk_in_order(fn) if isinstance(w, (ast.With, ast.AsyncWith)) for i in w.items if isinstance(i.context_expr, ast.Name)}
+        defs = _single_defs(fn)
+        for c in calls_in(fn):
+            if not (isinstance(c.func, ast.Attribute) and c.func.attr == "disarm"):
+                continue
+            ctx.require(norm(_expand(c, fn)) == DISARM_CTX, f"{fn.name}: disarm() on something other than self.timeout_watchdog (not modelled): {norm(c)}")
+            as_item = id(c) in with_items
+            via_temp = any(defs.get(nm) is c for nm in item_names)
+            ctx.require(as_item or via_temp, f"{fn.name}: {norm(c)} is not used as the context manager of a with statement (not modelled)")
+
+
+def _r10_2(ctx, ctor_stmt, ctor, stamps):
     m = ctx.model
-    hh = ctx.func(MS, "ProxyConnectionHandler.handle_hook")
+    m.cls(MS, "ProxyConnectionHandler")
     anc = [c.name for _, c in m.mro(MS, "ProxyConnectionHandler")]
     ctx.require("ConnectionHandler" in anc, "ProxyConnectionHandler no longer derives from ConnectionHandler")
-    ctx.require(m.method(MS, "ProxyConnectionHandler", "handle_hook")[1] is hh, "ProxyConnectionHandler.handle_hook is not the resolved handle_hook")
-    params = [a.arg for a in hh.args.args]
-    ctx.require(len(params) == 2, "handle_hook signature changed")
+    # the handle_hook the production handler runs: its own or one inherited from an intermediate base - not the abstract one
+    hmod, hh = ctx.require(m.method(MS, "ProxyConnectionHandler", "handle_hook"), "ProxyConnectionHandler has no handle_hook")
+    hq = getattr(hh, "_qual", hh.name)
+    ctx.functions.add(f"{hmod.rel}::{hq}")
+    ctx.require(not any(d.split(".")[-1] == "abstractmethod" for d in decorators(hh)), "ProxyConnectionHandler.handle_hook resolves to the abstract ConnectionHandler.handle_hook")
+    a = hh.args
+    params = [p.arg for p in a.posonlyargs + a.args]
+    ctx.require(len(params) == 2 and not a.vararg and not a.kwarg, "handle_hook signature changed")
     hook_param = params[1]
-    # position of every await relative to the disarm region, on every path
-    awaits = [n for n in walk_in_order(hh) if isinstance(n, ast.Await)]
-    ctx.require(all(isinstance(a.value, ast.Call) for a in awaits), "handle_hook awaits a non-call (not modelled)")
-    spec = WithSpec(keep=lambda ev: ev[0] in ("await", "enter", "exit"))
-    res, eng = traces_of(hh, spec)
-    where = (MS, "ProxyConnectionHandler.handle_hook", hh)
-    outside = set()
+
+    def relevant(fn):
+        return any(isinstance(n, (ast.Await, ast.With, ast.AsyncWith, ast.AsyncFor)) for n in walk_in_order(fn))
+
+    resolver = _helper_resolver(m, MS, "ProxyConnectionHandler", relevant)
+    spec = _XSpec(keep=lambda ev: ev[0] in ("await", "enter", "exit", "dispatch"), resolver=resolver, mark=R("$hook"))
+    res, eng = _traces(hh, spec, bindings={hook_param: R("$hook")})
+    _disarm_uses_ok(ctx, [hh] + list(resolver.reached))
+    where = (hmod.rel, hq, hh)
+    inside, outside = set(), set()
     for trace, how, st in res:
         ctx.paths += 1
         depth = 0
         for ev in trace:
-            if ev == ("enter", DISARM):
+            if ev == ("enter", DISARM_CTX):
                 depth += 1
-            elif ev == ("exit", DISARM):
+            elif ev == ("exit", DISARM_CTX):
                 depth -= 1
-            elif ev[0] == "await" and depth <= 0:
-                outside.add(ev[1])
-    for a in awaits:
-        name = call_name(a.value)
+            elif ev[0] == "await":
+                (inside if depth > 0 else outside).add(ev[1])
+    names = sorted(inside | outside)
+    ctx.require(names, "handle_hook no longer awaits anything (hook dispatch not found)")
+    for name in names:
         ctx.check(name not in outside, "R10.2", where, f"await {name}(...)",
                   "this await can run outside `with self.timeout_watchdog.disarm()`: the connection can be closed for inactivity while the hook is pending",
                   desc=f"await {name} inside disarm()")
     # the hook dispatch itself and the wait for intercepted flows are among them
-    dispatch = [a for a in awaits if any(isinstance(x, ast.Name) and x.id == hook_param for arg in a.value.args for x in ast.walk(arg))]
-    ctx.require(dispatch, "handle_hook no longer awaits a call that receives the hook (dispatch not found)")
-    resume = [a for a in awaits if call_name(a.value).endswith(".wait_for_resume")]
-    ctx.require(resume, "handle_hook no longer awaits wait_for_resume() (intercept wait not found)")
+    ctx.require(any(ev == ("dispatch",) for t, _, _ in res for ev in t), "handle_hook no longer awaits a call that receives the hook (dispatch not found)")
+    ctx.require(any(n == "wait_for_resume" or n.endswith(".wait_for_resume") for n in names), "handle_hook no longer awaits wait_for_resume() (intercept wait not found)")
     for trace, how, st in res:
         if how == "return":
-            ctx.require(any(ev[0] == "await" and ev[1] == call_name(dispatch[0].value) for ev in trace),
-                        "handle_hook has a returning path that does not dispatch the hook")
+            ctx.require(("dispatch",) in trace, "handle_hook has a returning path that does not dispatch the hook")
     ctx.expect_instances("R10.2", 2)
 
     # other concrete handle_hook implementations of ConnectionHandler subclasses
@@ -237,11 +880,15 @@ def _r10_2(ctx):
 
     # server_event registers activity before the layer handles the event
     se = ctx.func(F, "ConnectionHandler.server_event")
-    REGA = "self.timeout_watchdog.register_activity"
-    spec = GenericSpec(keep=lambda ev: ev[0] == "call" and ev[1] in (REGA, "self.layer.handle_event"))
-    res, eng = traces_of(se, spec)
-    ok = all(precedes(t, lambda e: e[1] == REGA, lambda e: e[1] == "self.layer.handle_event") for t, _, _ in res)
-    has = any(any(e[1] == "self.layer.handle_event" for e in t) for t, _, _ in res)
+    REGA, HE = WD + ".register_activity", "self.layer.handle_event"
+
+    def relevant_se(fn):
+        return any(isinstance(c.func, ast.Attribute) and c.func.attr in ("register_activity", "handle_event") for c in calls_in(fn))
+
+    spec = _XSpec(keep=lambda ev: ev[0] == "call" and ev[1] in (REGA, HE), resolver=_helper_resolver(m, F, "ConnectionHandler", relevant_se))
+    res, eng = _traces(se, spec)
+    ok = all(precedes(t, lambda e: e[1] == REGA, lambda e: e[1] == HE) for t, _, _ in res)
+    has = any(any(e[1] == HE for e in t) for t, _, _ in res)
     ctx.require(has, "server_event no longer calls self.layer.handle_event")
     ctx.paths += len(res)
     ctx.check(ok, "R10.2", (F, "ConnectionHandler.server_event", se), "register_activity() before layer.handle_event",
@@ -249,173 +896,241 @@ def _r10_2(ctx):
               desc="server_event: register_activity precedes handle_event on all paths")
     # register_activity really stamps the time
     reg = ctx.func(F, "TimeoutWatchdog.register_activity")
-    res, _ = traces_of(reg, DisarmSpec(None))
-    ctx.check(all(("activity",) in t for t, _, _ in res), "R10.2", (F, "TimeoutWatchdog.register_activity", reg), "self.last_activity = time.time()",
-              "register_activity does not stamp last_activity on every path", desc="register_activity stamps last_activity")
+    ctx.check(bool(stamps), "R10.2", (F, "TimeoutWatchdog.register_activity", reg), "register_activity() stamps the current time",
+              "register_activity() run at a fresh instant leaves no attribute of the watchdog holding that time", desc=f"register_activity stamps {', '.join(stamps)}")
     # identity of the watchdog
-    ci = ctx.func(F, "ConnectionHandler.__init__")
-    wd = [s for s in walk_in_order(ci) if isinstance(s, ast.Assign) and any(attr_chain(t) == "self.timeout_watchdog" for t in s.targets)]
-    ctx.require(len(wd) == 1 and isinstance(wd[0].value, ast.Call), "ConnectionHandler.__init__ no longer builds self.timeout_watchdog in one assignment")
-    call = wd[0].value
-    args = list(call.args) + [k.value for k in call.keywords]
-    ctx.check(call_name(call) == "TimeoutWatchdog" and any(attr_chain(a) == "self.on_timeout" for a in args), "R10.2",
-              (F, "ConnectionHandler.__init__", wd[0]), "self.timeout_watchdog = TimeoutWatchdog(timeout, self.on_timeout)",
+    args = list(ctor.args) + [k.value for k in ctor.keywords]
+    ctx.check(call_name(ctor) == "TimeoutWatchdog" and any(attr_chain(x) == "self.on_timeout" for x in args), "R10.2",
+              (F, "ConnectionHandler.__init__", ctor_stmt), "self.timeout_watchdog = TimeoutWatchdog(timeout, self.on_timeout)",
               "the handler's watchdog is not a TimeoutWatchdog calling self.on_timeout", desc="timeout_watchdog = TimeoutWatchdog(..., self.on_timeout)")
 
 
-# ---- R10.3 ---------------------------------------------------------------------------------------
+# ---- R10.3 ---------------------------------------------------------------------------------------------
+
+_EXTRAS = (0.5, 50.0)  # a sleep / wait lasts just long enough, or far too long
+_ACTS = ((), ("S",), ("F",), ("A",), ("S", "F"))  # hook Starts / oldest hook Finishes / Activity
+_INITS = ((), ("S",))  # hooks already pending when the watch task first runs (handle_client dispatches client_connected right away)
+_ACT_TEXT = {"S": "a hook starts", "F": "the oldest pending hook completes", "A": "activity is registered"}
 
 
-def _pending_atom(blocker):
-    def atom(node, env):
-        if isinstance(node, ast.Attribute) and attr_chain(node) == "self.blocker":
-            return blocker
-        if isinstance(node, ast.Call) and call_name(node) == "self.can_timeout.is_set" and not node.args and not node.keywords:
-            return False
-        if isinstance(node, (ast.Attribute, ast.Call, ast.Name)):
-            raise AnalysisError(f"watch: condition mixes the pending-hook state with something not modelled: {norm(node)}")
-        raise NotAnAtom
+class _Run:
+    """watch() interpreted against one schedule: script[0] = actions before watch starts, script[i] = (extra time, actions) of the i-th
+    scheduler step.  Ground truth (pending hooks, time of last activity / last hook completion) is kept here, not read from the code."""
 
-    return atom
+    def __init__(self, vm, script):
+        self.vm = vm.reset()
+        self.script = script
+        self.pos = 1
+        self.open: list = []
+        self.truth_last = self.vm.world.now
+        self.log: list = []
+        self.status = None
+        self.fired = None
+        self.trouble = None
 
+    def act(self, actions):
+        vm = self.vm
+        for a in actions:
+            if a == "F" and not self.open:
+                raise _Invalid()
+            self.log.append(f"t={vm.world.now:g}: {_ACT_TEXT[a]}")
+            saved = vm.interp.scheduler
+            vm.interp.scheduler = None
+            try:
+                if a == "S":
+                    h = _HookCtx(vm)
+                    self.open.append(h)
+                    h.enter()
+                elif a == "F":
+                    self.open.pop(0).exit(False)
+                    if not self.open:
+                        self.truth_last = vm.world.now
+                else:
+                    vm.call(vm.wd, "register_activity")
+                    self.truth_last = vm.world.now
+            except Raised as r:  # must not leak into the interpreted watch() frames
+                self.trouble = self.trouble or f"{_ACT_TEXT[a]}: the watchdog code raises {r.name}"
+            finally:
+                vm.interp.scheduler = saved
 
-def _time_atom(last, timeout, now):
-    def atom(node, env):
-        ch = attr_chain(node) if isinstance(node, ast.Attribute) else ""
-        if ch == "self.last_activity":
-            return last
-        if ch == "self.timeout":
-            return timeout
-        if isinstance(node, ast.Call) and call_name(node) == "time.time" and not node.args:
-            return now
-        if isinstance(node, (ast.Attribute, ast.Call, ast.Name)):
-            raise AnalysisError(f"watch: idle-time condition uses something not modelled: {norm(node)}")
-        raise NotAnAtom
+    def step(self):
+        if self.pos >= len(self.script):
+            raise _NeedMore()
+        s = self.script[self.pos]
+        self.pos += 1
+        return s
 
-    return atom
-
-
-def _mentions_pending(expr):
-    for n in ast.walk(expr):
-        if isinstance(n, ast.Attribute) and attr_chain(n) in ("self.blocker", "self.can_timeout"):
+    def schedule(self, aw):
+        w = self.vm.world
+        if aw.kind == "callback":
+            self.fired = (len(self.open), w.now - self.truth_last)
+            self.log.append(f"t={w.now:g}: watch() awaits the timeout callback ({len(self.open)} hook(s) pending, {w.now - self.truth_last:g}s since the last activity, timeout {TIMEOUT}s)")
+            raise _EndRun()
+        if aw.kind == "sleep":
+            extra, acts = self.step()
+            self.log.append(f"t={w.now:g}: watch() sleeps {aw.arg:g}s")
+            w.now += max(aw.arg, 0) + extra
+            self.act(acts)
+            self.log.append(f"t={w.now:g}: watch() wakes up")
+            return None
+        if aw.kind == "wait":
+            ev = aw.arg
+            if ev._v:
+                return True  # asyncio.Event.wait() does not suspend when the event is set
+            self.log.append(f"t={w.now:g}: watch() waits for the event")
+            ev.fired = False
+            while not ev.fired:
+                extra, acts = self.step()
+                w.now += extra
+                self.act(acts)
+            self.log.append(f"t={w.now:g}: watch() resumes (the event was set)")
             return True
-    return False
+        raise AnalysisError(f"virtual-time model: unknown awaitable {aw.kind}")
+
+    def go(self):
+        vm = self.vm
+        try:
+            self.act(self.script[0])
+            self.log.append(f"t={vm.world.now:g}: watch() starts")
+            vm.interp.scheduler = self.schedule
+            vm.call(vm.wd, "watch")
+            self.status = "returned"
+        except _EndRun:
+            self.status = "fired"
+        except _NeedMore:
+            self.status = "more"
+        except _Invalid:
+            self.status = "invalid"
+        except Raised as r:
+            raise AnalysisError(f"watch() raises {r.name} in the virtual-time model ({'; '.join(self.log[-4:])})")
+        return self
 
 
-def _mentions_time(expr):
-    return any(isinstance(n, ast.Attribute) and attr_chain(n) == "self.last_activity" for n in ast.walk(expr))
-
-
-def excludes_pending_hook(expr, taken) -> bool:
-    """The leaf cannot evaluate to ``taken`` in any world with a pending hook."""
-    if not _mentions_pending(expr):
-        return False
-    for n in ast.walk(expr):
-        if isinstance(n, ast.Constant) and isinstance(n.value, int) and not isinstance(n.value, bool) and n.value not in (0, 1):
-            raise AnalysisError(f"watch: blocker compared with {n.value} (only 0/1 thresholds modelled): {norm(expr)}")
-    return all(bool(ceval(expr, {}, _pending_atom(b), "watch condition")) != taken for b in (1, 2, 3))
-
-
-def requires_idle_elapsed(expr, taken) -> bool:
-    """The leaf has the taken value when idle for longer than the timeout and cannot have it when idle for less."""
-    if not _mentions_time(expr):
-        return False
-    worlds_not_elapsed = [(100.0, 10, 100.0), (100.0, 10, 105.0), (100.0, 10, 109.5)]
-    worlds_elapsed = [(100.0, 10, 110.5), (100.0, 10, 200.0)]
-    return all(bool(ceval(expr, {}, _time_atom(*w), "watch condition")) != taken for w in worlds_not_elapsed) and all(
-        bool(ceval(expr, {}, _time_atom(*w), "watch condition")) == taken for w in worlds_elapsed
-    )
-
-
-def _r10_3(ctx):
+def _r10_3(ctx, ctor):
     watch = ctx.func(F, "TimeoutWatchdog.watch")
-    init = ctx.func(F, "TimeoutWatchdog.__init__")
-    p = [a.arg for a in init.args.args]
-    ok = any(isinstance(s, ast.Assign) and attr_chain(s.targets[0]) == "self.callback" and isinstance(s.value, ast.Name) and s.value.id in p for s in init.body)
-    ctx.require(ok, "TimeoutWatchdog.__init__ no longer stores the callback parameter in self.callback")
-    spec = NodeCondSpec(keep=lambda ev: ev[0] == "await", unroll=2)
-    res, eng = traces_of(watch, spec)
     where = (F, "TimeoutWatchdog.watch", watch)
-    n_cb = 0
-    bad_pending, bad_time = 0, 0
-    for trace, how, st in res:
-        ctx.paths += 1
-        for j, ev in enumerate(trace):
-            if not (ev[0] == "await" and ev[1] == "self.callback"):
-                continue
-            n_cb += 1
-            i = max((k for k in range(j) if trace[k][0] == "await"), default=-1)
-            window = [e for e in trace[i + 1 : j] if e[0] == "cond"]
-            if not any(excludes_pending_hook(e[3], e[2]) for e in window):
-                bad_pending += 1
-            if not any(requires_idle_elapsed(e[3], e[2]) for e in window):
-                bad_time += 1
-            if len(ctx.samples) < 4:
-                ctx.sample({"rule": "R10.3", "conditions between last await and callback": [f"{e[1]} is {e[2]}" for e in window]})
-    ctx.require(n_cb > 0, "watch: no path awaits self.callback() (anchor changed)")
-    ctx.check(bad_pending == 0, "R10.3", where, "no re-check of pending hooks between the last await and await self.callback()",
-              f"{bad_pending} path(s) reach the callback without a condition, evaluated after the last suspension point, that is false while a hook is pending "
-              "(blocker >= 1 / can_timeout cleared): a hook that starts during the sleep and is still pending at wake-up is closed for inactivity",
-              desc=f"pending-hook re-check dominates callback on {n_cb} callback occurrences")
-    ctx.check(bad_time == 0, "R10.3", where, "no idle-time check between the last await and await self.callback()",
-              f"{bad_time} path(s) reach the callback without a condition that holds only when last_activity + timeout has passed: "
-              "activity during the sleep does not postpone the timeout",
-              desc=f"idle-time check dominates callback on {n_cb} callback occurrences")
+    max_steps = 3 if ctx.tier == "quick" else 4
+    alphabet = [(x, acts) for x in _EXTRAS for acts in _ACTS]
+    todo = [(init,) for init in _INITS]
+    runs = fired = 0
+    bad_pending, bad_idle, trouble = [], [], []
+    vm = _VM(ctx.model, ctor)
+    while todo:
+        script = todo.pop()
+        r = _Run(vm, script).go()
+        runs += 1
+        if r.status == "invalid":
+            continue
+        if r.trouble:
+            trouble.append(r.trouble)
+        if r.status == "fired":
+            fired += 1
+            pending, idle = r.fired
+            if pending > 0:
+                bad_pending.append(r.log)
+            if idle <= TIMEOUT:
+                bad_idle.append(r.log)
+            if len(ctx.samples) < 3 and pending == 0 and idle > TIMEOUT:
+                ctx.sample({"rule": "R10.3", "schedule": r.log})
+        elif r.status == "more" and len(script) - 1 < max_steps:
+            todo.extend(script + (s,) for s in alphabet)
+    ctx.paths += runs
+    ctx.bounds.append(f"R10.3: every schedule of up to {max_steps} scheduler steps ({len(alphabet)} choices each, {len(_INITS)} initial situations): {runs} runs of watch(), {fired} reach the callback")
+    ctx.require(fired > 0, "watch: no explored schedule reaches `await <callback>()` (anchor changed / watchdog never fires)")
+    short = lambda logs: " | ".join(min(logs, key=len)) if logs else ""  # noqa: E731
+    ctx.check(not bad_pending, "R10.3", where, "timeout callback awaited while a hook is pending",
+              f"{len(bad_pending)} schedule(s) fire the timeout although a hook is pending, e.g.: {short(bad_pending)}",
+              desc=f"no hook pending whenever the callback is awaited ({fired} firing schedules of {runs})", schedules=bad_pending[:3])
+    ctx.check(not bad_idle, "R10.3", where, "timeout callback awaited before the idle time elapsed",
+              f"{len(bad_idle)} schedule(s) fire the timeout although there was activity / a hook completed within the timeout, e.g.: {short(bad_idle)}",
+              desc=f"idle for longer than the timeout whenever the callback is awaited ({fired} firing schedules of {runs})", schedules=bad_idle[:3])
+    if trouble and not any(f.rule in ("R10.1", "R10.3") for f in ctx.findings):
+        raise AnalysisError(f"virtual-time model: {trouble[0]}")
     ctx.expect_instances("R10.3", 2)
 
 
+# ---- R10.4 ---------------------------------------------------------------------------------------------
+
+_CLIENT_HANDLER = re.compile(r"^self\.transports(\[self\.client\]|\.get\(self\.client(, [^()]*)?\))\.handler$")
+_STARTERS = ("create_task", "ensure_future")
+
+
 def _r10_4(ctx):
+    m = ctx.model
     hc = ctx.func(F, "ConnectionHandler.handle_client")
-    W = "self.timeout_watchdog.watch"
+    W = WD + ".watch"
     ctx.func(F, "TimeoutWatchdog.watch")  # the coroutine exists under this name (else: anchor error, not a verdict)
-    wcalls = calls_in(hc, W)
-    started = []
-    for c in wcalls:
-        par = getattr(c, "_parent", None)
-        ctx.require(unconditional_in_stmt(c), f"handle_client: {W}() is evaluated conditionally inside an expression (not modelled)")
-        if isinstance(par, ast.Call) and call_name(par).split(".")[-1] in ("create_task", "ensure_future") and c in par.args:
-            started.append(c)
-    res, eng = traces_of(hc, GenericSpec(keep=lambda ev: ev[0] == "call" and ev[1] == W))
+
+    def relevant_w(fn):
+        return any(isinstance(c.func, ast.Attribute) and c.func.attr == "watch" for c in calls_in(fn))
+
+    resolver = _helper_resolver(m, F, "ConnectionHandler", relevant_w)
+    res, eng = _traces(hc, _XSpec(keep=lambda ev: ev[0] == "call" and ev[1] == W, resolver=resolver))
     ctx.paths += len(res)
+    fns = [hc] + list(resolver.reached)
+    wcalls, started = [], []
+    for fn in fns:
+        defs = _single_defs(fn)
+        for c in calls_in(fn):
+            if _xname(c) != W:
+                continue
+            wcalls.append(c)
+            ctx.require(unconditional_in_stmt(c), f"{fn.name}: {W}() is evaluated conditionally inside an expression (not modelled)")
+            par = getattr(c, "_parent", None)
+            if isinstance(par, ast.keyword):
+                par = getattr(par, "_parent", None)
+            temps = [nm for nm, v in defs.items() if v is c]
+            if isinstance(par, ast.Call) and call_name(par).split(".")[-1] in _STARTERS:
+                started.append(c)
+            elif temps and any(call_name(s).split(".")[-1] in _STARTERS and any(isinstance(x, ast.Name) and x.id == temps[0] for x in list(s.args) + [k.value for k in s.keywords])
+                               for s in calls_in(fn)):
+                started.append(c)
     ok = bool(started) and len(started) == len(wcalls) and all(any(e[1] == W for e in t) for t, how, _ in res if how == "return")
     ctx.check(ok, "R10.4", (F, "ConnectionHandler.handle_client", hc), "create_task(self.timeout_watchdog.watch())",
               "the watchdog coroutine is not started as a task on every path of handle_client: idle connections are never closed",
               desc="handle_client starts watch() as a task on all paths")
+
     ot = ctx.func(F, "ConnectionHandler.on_timeout")
-    cancels = [c for c in calls_in(ot) if call_name(c).endswith(".cancel")]
+
+    def relevant_c(fn):
+        return any(isinstance(c.func, ast.Attribute) and c.func.attr == "cancel" for c in calls_in(fn))
+
+    resolver = _helper_resolver(m, F, "ConnectionHandler", relevant_c)
+    is_cancel = lambda ev: ev[0] == "call" and (ev[1] == "cancel" or ev[1].endswith(".cancel"))  # noqa: E731
+    spec = _XSpec(keep=lambda ev: is_cancel(ev) or ev[0] in ("cond", "except"), resolver=resolver, implicit_raises=True)
+    res, eng = _traces(ot, spec)
+    ctx.paths += len(res)
+    fns = [ot] + list(resolver.reached)
+    cancels = [c for fn in fns for c in calls_in(fn) if isinstance(c.func, ast.Attribute) and c.func.attr == "cancel"]
     ctx.require(cancels, "on_timeout no longer cancels anything")
-    good = 0
-    for c in cancels:
-        recv = c.func.value
-        src = None
-        if isinstance(recv, ast.Name):
-            defs = [s for s in walk_in_order(ot) if isinstance(s, ast.Assign) and any(isinstance(t, ast.Name) and t.id == recv.id for t in s.targets)]
-            if len(defs) == 1:
-                src = defs[0].value
-        else:
-            src = recv
-        if src is not None and norm(src) == "self.transports[self.client].handler":
-            good += 1
-    res, eng = traces_of(ot, GenericSpec(keep=lambda ev: ev[0] == "call" and ev[1].endswith(".cancel")))
-    allp = all(any(e[0] == "call" for e in t) for t, how, _ in res if how == "return")
-    ctx.check(good == len(cancels) and allp, "R10.4", (F, "ConnectionHandler.on_timeout", ot), "self.transports[self.client].handler.cancel(...)",
+    good = sum(1 for c in cancels if _CLIENT_HANDLER.match(_xtext(c.func.value)))
+
+    def exempt(trace):
+        # the client's transport / handler task does not exist on this path: a lookup failed or a test on it was taken
+        return any(e[0] == "except" or (e[0] == "cond" and mentions(_expand(e[3]), "self.transports")) for e in trace)
+
+    allp = all(any(is_cancel(e) for e in t) or exempt(t) for t, how, _ in res if how == "return")
+    some = any(any(is_cancel(e) for e in t) for t, how, _ in res if how == "return")
+    ctx.check(good == len(cancels) and allp and some, "R10.4", (F, "ConnectionHandler.on_timeout", ot), "self.transports[self.client].handler.cancel(...)",
               "the timeout callback does not cancel the client connection's handler task on every path where it exists",
               desc="on_timeout cancels transports[self.client].handler")
     ctx.expect_instances("R10.4", 2)
 
 
 def check(ctx):
-    ctx.rule("R10.1", "disarm(): cleared and counted while a hook runs; count restored on normal and exceptional exit; re-armed + activity registered iff last hook")
+    ctx.rule("R10.1", "disarm(): disarmed while >=1 block is open, over all interleavings of nested/overlapping blocks with normal and exceptional exits; re-armed + activity registered exactly at the last exit")
     ctx.rule("R10.2", "every await of the production handle_hook is inside disarm(); server_event registers activity before the layer runs")
-    ctx.rule("R10.3", "watch(): pending-hook re-check and idle-time check between the last suspension point and the callback, on all paths")
+    ctx.rule("R10.3", "watch(): under every bounded schedule of time / hooks / activity the callback is awaited only with no hook pending and the idle time elapsed")
     ctx.rule("R10.4", "handle_client starts watch(); on_timeout cancels the client handler task")
     ctx.assume("hooks for a connection are only ever handled through handle_hook (C09/C04 cover the callers)")
-    ctx.trust("asyncio.Event / asyncio.sleep / time.time semantics")
-    _r10_1(ctx)
-    ctx.expect_instances("R10.1", 19)
-    _r10_2(ctx)
-    _r10_3(ctx)
-    _r10_4(ctx)
+    ctx.trust("asyncio.Event / asyncio.sleep / time.time / contextlib.contextmanager semantics")
+    ctor_stmt, ctor = _ctor_call(ctx)
+    stamps = _stamp_attrs(ctx, ctor)
+    ctx.guard(_r10_1, ctx, ctor, stamps)
+    ctx.expect_instances("R10.1", 12)
+    ctx.guard(_r10_2, ctx, ctor_stmt, ctor, stamps)
+    ctx.guard(_r10_3, ctx, ctor)
+    ctx.guard(_r10_4, ctx)
 
 
 MUTANTS = [
@@ -437,15 +1152,23 @@ MUTANTS = [
     Mutant("disarm-no-activity-on-last-hook", F, "            if self.blocker == 0:\n                self.register_activity()\n", "            if self.blocker == 0:\n", "R10.1"),
     Mutant("disarm-forgets-clear", F, "        self.can_timeout.clear()\n        self.blocker += 1\n", "        self.blocker += 1\n", "R10.1"),
     Mutant("disarm-decrement-twice", F, "            self.blocker -= 1\n            if self.blocker == 0:", "            self.blocker -= 2\n            if self.blocker == 0:", "R10.1"),
+    # overlapping (not nested) hooks: whether this block was the first one says nothing about whether it is the last one to finish
+    Mutant("disarm-rearm-decided-at-entry", F,
+           "        self.can_timeout.clear()\n        self.blocker += 1\n        try:\n            yield\n        finally:\n            self.blocker -= 1\n            if self.blocker == 0:\n",
+           "        outermost = self.blocker == 0\n        self.can_timeout.clear()\n        self.blocker += 1\n        try:\n            yield\n        finally:\n            self.blocker -= 1\n            if outermost:\n", "R10.1"),
     Mutant("handle-hook-resume-outside-disarm", MS,
            "            await self.master.addons.handle_lifecycle(hook)\n            if isinstance(data, flow.Flow):\n                await data.wait_for_resume()  # pragma: no cover\n",
            "            await self.master.addons.handle_lifecycle(hook)\n        if isinstance(data, flow.Flow):\n            await data.wait_for_resume()  # pragma: no cover\n", "R10.2"),
     Mutant("server-event-activity-after-layer", F,
            "            self.timeout_watchdog.register_activity()\n            try:\n                layer_commands = self.layer.handle_event(event)\n",
            "            try:\n                layer_commands = self.layer.handle_event(event)\n", "R10.2"),
+    Mutant("register-activity-stamps-nothing", F, "    def register_activity(self):\n        self.last_activity = time.time()\n", "    def register_activity(self):\n        self.last_activity\n", "R10.2"),
     Mutant("watchdog-not-started", F,
            "            self.timeout_watchdog.watch(),\n", "            asyncio.sleep(0),\n",
            "R10.4"),
     Mutant("on-timeout-cancels-nothing-for-client", F, "            handler = self.transports[self.client].handler\n        except KeyError:  # pragma: no cover",
            "            handler = self.transports[next(iter(self.transports))].handler\n        except KeyError:  # pragma: no cover", "R10.4"),
+    Mutant("on-timeout-cancels-tcp-only", F,
+           "                self.log(f\"Closing connection due to inactivity: {self.client}\")\n            assert handler\n            handler.cancel(\"timeout\")\n",
+           "                self.log(f\"Closing connection due to inactivity: {self.client}\")\n                assert handler\n                handler.cancel(\"timeout\")\n", "R10.4"),
 ]
